@@ -163,6 +163,20 @@ def cases(draw):
         tm = {"name": draw(st.sampled_from(["aa_dv_twin_mod", "zz_dv_twin_mod"])), "attrs": ['#[diplomat::abi_rename = "dvtwin_{0}"]', '#[diplomat::attr(auto, namespace = "dvtwin")]'], "uses": [], "items": [t_it]}
         ir.default_order(tm)
         twin["modules"].insert(draw(st.integers(0, len(twin["modules"]))), tm)
+    # R3c: two structurally identical, method-less structs of the same name in two bridge modules (one per namespace) are two
+    # types: adding the second one must not change what the users of the first one refer to
+    plain = {"kind": "struct", "name": "DvPlain", "attrs": [], "out": False, "lifetimes": [], "fields": [["dv_a", ["prim", "u8"], []], ["dv_b", ["prim", "i32"], []]], "impls": []}
+    user = {"kind": "opaque", "name": "DvPlainUser", "attrs": [], "lifetimes": [], "impls": [{"attrs": [], "methods": [
+        {"name": "dv_take", "attrs": [], "lifetimes": [], "self": ["ref", None, False], "params": [["o", ["struct", "DvPlain", []], []]], "ret": ["prim", "u8"]},
+        {"name": "dv_give", "attrs": [], "lifetimes": [], "self": ["ref", None, False], "params": [], "ret": ["struct", "DvPlain", []]}]}]}
+    pbase = copy.deepcopy(prog)
+    pbase["modules"][0]["items"] += [copy.deepcopy(plain), user]
+    ir.default_order(pbase["modules"][0])
+    ptwin = copy.deepcopy(pbase)
+    tm2 = {"name": draw(st.sampled_from(["aa_dv_plain_mod", "zz_dv_plain_mod"])), "attrs": ['#[diplomat::attr(auto, namespace = "dvplain")]'], "uses": [], "items": [copy.deepcopy(plain)]}
+    ir.default_order(tm2)
+    ptwin["modules"].insert(draw(st.integers(0, len(ptwin["modules"]))), tm2)
+    prog["_r3c"] = [pbase, ptwin]
     return b, prog, perm, ins, uname, nb, twin
 
 
@@ -237,10 +251,13 @@ def worker(widx, seed, params):
         for _, it_ in ir.all_items(insd):
             if it_["name"] == uname:
                 it_["attrs"] = list(it_["attrs"]) + ["#[diplomat::attr(*, disable)]"]
-        variants = [("R1", prog), ("R2", perm), ("R3", ins), ("R3d", insd), ("R4", nb)] + ([("R3b", twin)] if twin is not None else [])
+        r3c = prog.pop("_r3c", None)
+        variants = [("R1", prog), ("R2", perm), ("R3", ins), ("R3d", insd), ("R4", nb)] + ([("R3b", twin)] if twin is not None else []) + ([("R3c", r3c[1])] if r3c else [])
         for rel, var in variants:
             identity = rel == "R2" and ir.render_program(perm) == ir.render_program(prog)
-            msg = relation_check(art, work, backend, cfg, prog, var, rel, uname)
+            msg = relation_check(art, work, backend, cfg, r3c[0] if rel == "R3c" else prog, var, "R3b" if rel == "R3c" else rel, uname)
+            if msg and rel == "R3c" and msg not in ("skip", "skip-variant"):
+                msg = "R3c (an identical method-less struct of the same name in a second namespace): " + msg
             if msg == "skip":
                 acc.case([ir.dumps(prog), backend, rel], False, ["%s:base-not-accepted" % backend])
                 break
@@ -263,7 +280,7 @@ def worker(widx, seed, params):
                 if rel == "R1":
                     small, _ = red.reduce(prog, fails, budget=40)
                     msg = relation_check(art, work, backend, cfg, small, small, "R1") or msg
-                acc.violation(msg, {"backend": backend, "config": cfg, "relation": rel, "base": prog, "variant": var, "uname": uname}, signature=sig)
+                acc.violation(msg, {"backend": backend, "config": cfg, "relation": "R3b" if rel == "R3c" else rel, "base": r3c[0] if rel == "R3c" else prog, "variant": var, "uname": uname}, signature=sig)
 
     pbt.explore(cases(), body, params["n"], seed)
     build.rm_workdir(work)
